@@ -332,11 +332,15 @@ func (o *Operator) Handle(w *World, op *types.Operation) *APIResult {
 	if string(op.Type) == string(spf.StateAwaitParticipantsConfirmations) {
 		body, _ := json.Marshal(map[string]string{"operationID": op.ID})
 		var rep *APIResult
+		if o.L.Faults.BoardDownAtSubmit && w.Tape.Bool(1, 6, "boardDownAtApprove?") {
+			n.Handle.SendErrOnce = true
+		}
 		if o.Approve != nil {
 			rep = o.Approve(op, body)
 		} else {
 			rep = w.CallAPI(n, "approve", "POST", "/approveDKGParticipation", body)
 		}
+		n.Handle.SendErrOnce = false
 		if o.OnResult != nil {
 			o.OnResult(op, nil, rep)
 		}
